@@ -16,7 +16,7 @@ EXPLANATION = ("The attribute functions run on small meshes whose vertex coordin
 BOUNDS = {
     "quick": "one triangle, two triangles sharing an edge, a closed 3-fan (interior vertex), one tetrahedron; all options (persistent, "
              "dense, zero_border, interpolation weights); single-radical obligations (lengths, areas, unit normals, barycentres, "
-             "volumes, the (sin,cos) pair of every corner angle, weights, defects, sums/means, scaling and translation)",
+             "volumes, the (sin,cos) pair of every corner angle, weights, defects, sums/means incl. the early-stopping argument n <= count+1, scaling and translation); corner angles of one non-planar quad; vertex normals under the three weightings on a quad+triangle mesh with concrete generic coordinates (symbolic mode / storage / numbering)",
     "thorough": "adds a planar convex quad and pentagon, two tetrahedra, cotangents and circumcentres and vertex normals (nested "
                 "normalisations, depth obligations), symbolic relabelling of the two-triangle mesh",
 }
